@@ -10,9 +10,8 @@
   What is decided by the `truth` stream rather than by a theorem is listed in the check's evidence
   (`level_note`).
 -/
-import Rsdns.Lemmas.Reader
+import Rsdns.Lemmas.Decode
 import Rsdns.Lemmas.Bits
-import Rsdns.Props.C03
 set_option linter.unusedVariables false
 namespace Rsdns.C02
 open Rsdns Generated Spec
@@ -79,55 +78,6 @@ theorem header_fields (msg : Bytes) (c : Cur) (h : Cur.OK msg c) (hl : c.pos + 1
   simp only [Nat.add_zero, Nat.reduceAdd] at s0 s2 s4 s6 s8 s10
   simp only [bind, CurM.bind, CurM.lift, pure, CurM.pure, s0, s2, s4, s6, s8, s10]
 
-theorem rBe_ok (msg : Bytes) (c : Cur) (n : Nat) (h1 : c.pos + n ≤ c.lim) (h2 : c.lim ≤ msg.size) :
-    Cur.rBe msg c n = .ok (Cur.beNat msg c.pos n, { c with pos := c.pos + n }) := by
-  unfold Cur.rBe Cur.len
-  have a : c.lim - c.pos ≥ n := by omega
-  have b : c.pos ≤ c.lim ∧ c.pos + n ≤ msg.size := by omega
-  simp only [a, b, and_self, if_true]
-
-theorem u16be_ok (msg : Bytes) (c : Cur) (h1 : c.pos + 2 ≤ c.lim) (h2 : c.lim ≤ msg.size) :
-    CurM.u16be msg c = (.ok (Cur.beNat msg c.pos 2), { c with pos := c.pos + 2 }) := by
-  simp only [CurM.u16be, CurM.lift, Cur.u16be, rBe_ok msg c 2 h1 h2]
-
-theorem u32be_ok (msg : Bytes) (c : Cur) (h1 : c.pos + 4 ≤ c.lim) (h2 : c.lim ≤ msg.size) :
-    CurM.u32be msg c = (.ok (Cur.beNat msg c.pos 4), { c with pos := c.pos + 4 }) := by
-  simp only [CurM.u32be, CurM.lift, Cur.u32be, rBe_ok msg c 4 h1 h2]
-
-theorem u16be_at (msg : Bytes) (lim pos : Nat) (orig : Option Nat) (h1 : pos + 2 ≤ lim) (h2 : lim ≤ msg.size) :
-    CurM.u16be msg { lim := lim, pos := pos, orig := orig } =
-      (.ok (Cur.beNat msg pos 2), { lim := lim, pos := pos + 2, orig := orig }) :=
-  u16be_ok msg _ h1 h2
-
-theorem u32be_at (msg : Bytes) (lim pos : Nat) (orig : Option Nat) (h1 : pos + 4 ≤ lim) (h2 : lim ≤ msg.size) :
-    CurM.u32be msg { lim := lim, pos := pos, orig := orig } =
-      (.ok (Cur.beNat msg pos 4), { lim := lim, pos := pos + 4, orig := orig }) :=
-  u32be_ok msg _ h1 h2
-
-/-- a name the encoder may legally emit at `pos`, seen through a view that ends at `lim`: labels `ls`
-    (each a valid label), any mix of in-place labels and backward pointers with at most
-    `DOMAIN_NAME_MAX_POINTERS` hops, in-place part ending at `nxt`, total length within 255 octets -/
-def LegalName (msg : Bytes) (lim pos : Nat) (ls : List Bytes) (nxt : Nat) : Prop :=
-  ∃ hops, NameAt msg lim pos pos ls nxt hops ∧ hops ≤ DOMAIN_NAME_MAX_POINTERS ∧
-    (∀ l ∈ ls, checkLabel l = .ok ()) ∧ (textOf ls).size < DOMAIN_NAME_MAX_LENGTH
-
-theorem LegalName.lt {msg lim pos ls nxt} (h : LegalName msg lim pos ls nxt) : pos < nxt := by
-  obtain ⟨hops, hn, _⟩ := h
-  exact Expand.lt_next (NameAt.expand hn)
-
-theorem readName_legal (k : NameKind) (msg : Bytes) (c : Cur) (ls : List Bytes) (nxt : Nat)
-    (h : LegalName msg c.lim c.pos ls nxt) :
-    CurM.readName k msg c = (.ok (nameText ls), c.setPos nxt) := by
-  obtain ⟨hops, hn, hh, hck, hlen⟩ := h
-  simp only [CurM.readName, CurM.lift, C03.read_complete k msg c ls nxt hops hn hh hck hlen]
-
-theorem skipName_legal (msg : Bytes) (c : Cur) (ls : List Bytes) (nxt : Nat)
-    (h : LegalName msg c.lim c.pos ls nxt) :
-    ∃ n, CurM.skipName msg c = (.ok n, c.setPos nxt) := by
-  obtain ⟨hops, hn, hh, hck, hlen⟩ := h
-  obtain ⟨n, he⟩ := C03.skip_complete msg c ls nxt hops hn hh hck
-  exact ⟨n, by simp only [CurM.skipName, CurM.lift, he]⟩
-
 /-- **question.** A legally encoded QNAME followed by QTYPE and QCLASS decodes to exactly those three
     values and the cursor stands behind the four fixed bytes — for the owned (`question`) and the
     borrowed (`question_ref`) reader alike. -/
@@ -182,5 +132,69 @@ theorem record_header_decode (msg : Bytes) (r : Reader) (k : HKind) (hc : r.cur.
   | owned nk =>
     simp only [Reader.headerImpl, Reader.calcSection, hns, Reader.onCur, readName_legal nk msg r.cur ls nxt hn,
       Reader.rawMarker, bind, CurM.bind, Cur.setPos, h1, h2, h3, h4, pure, CurM.pure, hnameOf, Nat.add_assoc]
+
+/-- **RDATA.** For each of the 17 typed formats: RDATA bytes that encode `v` (`RDataAt`), announced with
+    their exact length, decode to `v`, and the cursor stands right behind them with the window closed. -/
+theorem rdata_decode (msg : Bytes) (t : RType) (p n : Nat) (v : RData) (lim : Nat) (h : RDataAt msg t p n v)
+    (h1 : p + n ≤ lim) (h2 : lim ≤ msg.size) :
+    readRData t msg n { lim := lim, pos := p, orig := none } = (.ok v, { lim := lim, pos := p + n, orig := none }) := by
+  apply readRData_of_body t msg lim p n v h1 h2
+  have hW : p + n ≤ msg.size := by omega
+  cases h with
+  | a =>
+    simp only [readRDataBody, bind, CurM.bind, u32be_at msg (p + 4) p (some lim) (by omega) hW, pure, CurM.pure]
+  | aaaa =>
+    simp only [readRDataBody, bind, CurM.bind, u128be_at msg (p + 16) p (some lim) (by omega) hW, pure, CurM.pure]
+  | dn _ _ _ ls hdn hn =>
+    have hr := readName_at .heap msg (p + n) p (some lim) ls (p + n) hn
+    cases t <;> simp only [RType.isDn] at hdn <;> try (exact absurd hdn (by decide))
+    all_goals simp only [readRDataBody, bind, CurM.bind, hr, pure, CurM.pure]
+  | soa _ _ l1 l2 n1 n2 hn1 hn2 he =>
+    have hr1 := readName_at .heap msg (p + n) p (some lim) l1 n1 hn1
+    have hr2 := readName_at .heap msg (p + n) n1 (some lim) l2 n2 hn2
+    have u0 := u32be_at msg (p + n) n2 (some lim) (by omega) hW
+    have u1 := u32be_at msg (p + n) (n2 + 4) (some lim) (by omega) hW
+    have u2 := u32be_at msg (p + n) (n2 + 8) (some lim) (by omega) hW
+    have u3 := u32be_at msg (p + n) (n2 + 12) (some lim) (by omega) hW
+    have u4 := u32be_at msg (p + n) (n2 + 16) (some lim) (by omega) hW
+    have e20 : n2 + 16 + 4 = p + n := by omega
+    simp only [readRDataBody, bind, CurM.bind, hr1, hr2, u0, u1, u2, u3, u4, pure, CurM.pure, Nat.add_assoc,
+      Nat.reduceAdd] at *
+    simp only [e20, he]
+  | null =>
+    simp only [readRDataBody, bind, CurM.bind, slice_at msg (p + n) p n (some lim) (Nat.le_refl _) hW, pure,
+      CurM.pure]
+  | wks _ _ h5 =>
+    have u0 := u32be_at msg (p + n) p (some lim) (by omega) hW
+    have b0 := u8_at msg (p + n) (p + 4) (some lim) (by omega) hW
+    have s0 := slice_at msg (p + n) (p + 4 + 1) (n - 5) (some lim) (by omega) hW
+    have hlt : ¬ n < 5 := by omega
+    have e : p + 4 + 1 + (n - 5) = p + n := by omega
+    simp only [readRDataBody, bind, CurM.bind, u0, b0, hlt, if_false, s0, pure, CurM.pure, e, Nat.add_assoc,
+      Nat.reduceAdd]
+  | hinfo _ _ he =>
+    have b0 := u8_at msg (p + n) p (some lim) (by omega) hW
+    have s0 := slice_at msg (p + n) (p + 1) (msg.getD p 0).toNat (some lim) (by omega) hW
+    have b1 := u8_at msg (p + n) (p + 1 + (msg.getD p 0).toNat) (some lim) (by omega) hW
+    have s1 := slice_at msg (p + n) (p + 1 + (msg.getD p 0).toNat + 1)
+      (msg.getD (p + 1 + (msg.getD p 0).toNat) 0).toNat (some lim) (by omega) hW
+    have e1 : p + 1 + (msg.getD p 0).toNat + 1 = p + 2 + (msg.getD p 0).toNat := by omega
+    rw [e1] at s1
+    simp only [readRDataBody, readCharString, bind, CurM.bind, b0, s0, b1, e1, s1, pure, CurM.pure, he]
+  | minfo _ _ l1 l2 n1 hn1 hn2 =>
+    have hr1 := readName_at .heap msg (p + n) p (some lim) l1 n1 hn1
+    have hr2 := readName_at .heap msg (p + n) n1 (some lim) l2 (p + n) hn2
+    simp only [readRDataBody, bind, CurM.bind, hr1, hr2, pure, CurM.pure]
+  | mx _ _ ls hn =>
+    have hlt := hn.lt
+    have u0 := u16be_at msg (p + n) p (some lim) (by omega) hW
+    have hr := readName_at .heap msg (p + n) (p + 2) (some lim) ls (p + n) hn
+    simp only [readRDataBody, bind, CurM.bind, u0, hr, pure, CurM.pure]
+  | txt _ _ ss hcs =>
+    have := txtLoop_strings msg (p + n) (some lim) hW ss p #[] hcs
+    have e : p + n - p = n := by omega
+    rw [e] at this
+    simp only [readRDataBody, bind, CurM.bind, this, pure, CurM.pure, Array.empty_append]
+
 
 end Rsdns.C02
